@@ -98,11 +98,11 @@ class JsonRpcError(BaseError, metaclass=JsonRpcErrorMeta):
         return type(cls).__errors_mapping__.get(code, default)
 
     def __init__(self, code: Optional[int] = None, message: Optional[str] = None, data: MaybeSet[Any] = UNSET):
-        assert code or self.code, "code is not provided"
-        assert message or self.message, "message is not provided"
+        assert code is not None or self.code is not None, "code is not provided"
+        assert message is not None or self.message is not None, "message is not provided"
 
-        self.code = code or self.code
-        self.message = message or self.message
+        self.code = code if code is not None else self.code
+        self.message = message if message is not None else self.message
         self.data = data
 
         super().__init__(code, message)
